@@ -71,15 +71,18 @@ func TestC14ActionCache(t *testing.T) {
 		srv := grpcservers.NewActionCacheServer(faulty, maxMsg)
 
 		// actions are identified by the digest of a small "Action" blob
-		actions := [][]byte{[]byte("action-0"), []byte("action-1"), []byte("action-2")}
+		actions := [][]byte{[]byte("action-0"), []byte("action-1")}
 		model := map[string]*remoteexecution.ActionResult{}
 		corrupt := map[string]bool{}
-		nops := rapid.IntRange(1, 8).Draw(t, "nops")
+		nops := rapid.IntRange(1, 10).Draw(t, "nops")
 		var rendered []string
-		roundTrips := 0
+		roundTrips, updates := 0, 0
 		calls := 0
+		// Two request headers per case, so that operations meet on the same
+		// entries.
+		envs := []batchEnv{genBatchEnv(t), genBatchEnv(t)}
 		for op := 0; op < nops; op++ {
-			e := genBatchEnv(t)
+			e := envs[rapid.SampledFrom([]int{0, 0, 0, 1}).Draw(t, "env")]
 			ai := rapid.IntRange(0, len(actions)-1).Draw(t, "action")
 			ad := protoOf(actions[ai], e.fn)
 			malformed := ""
@@ -95,9 +98,12 @@ func TestC14ActionCache(t *testing.T) {
 				d = e.digestOf(actions[ai])
 				key = d.GetKey(kf)
 			}
-			kind := rapid.SampledFrom([]string{"update", "get", "get", "corrupt"}).Draw(t, "op")
+			kind := rapid.SampledFrom([]string{"update", "get", "update", "get", "get", "corrupt"}).Draw(t, "op")
+			if op == 0 {
+				kind = "update"
+			}
 			injected := false
-			if kind != "corrupt" && chance(t, "backend_fault", 5) {
+			if kind != "corrupt" && headerOK && chance(t, "backend_fault", 5) {
 				// Faulty counts calls that reach it; only well-formed requests do
 				fault[calls] = backends.Fault{Code: codes.Unavailable}
 				injected = true
@@ -136,6 +142,7 @@ func TestC14ActionCache(t *testing.T) {
 					if !proto.Equal(got, res) {
 						t.Fatalf("UpdateActionResult returned %v, want the uploaded result %v", got, res)
 					}
+					updates++
 					model[key] = proto.Clone(res).(*remoteexecution.ActionResult)
 					delete(corrupt, key)
 				}
@@ -189,7 +196,7 @@ func TestC14ActionCache(t *testing.T) {
 				}
 			}
 		}
-		if roundTrips > 0 && len(model) >= 2 {
+		if roundTrips > 0 && updates >= 2 {
 			vc.NonTrivial()
 		}
 		vc.ClassIf(roundTrips > 0, "has_round_trip")
